@@ -1,10 +1,12 @@
 (* C03 — Sync gives a consistent snapshot, then a gap-free tail.
    Property theorems only (Proofs/UplinksProofs.v): what the runtime writes for a sync answer of a lane.
-   The lane side of a map sync (per-remote sync queues interleaved with events) is C02's lane model; the
-   consistency of the snapshot with the lane's state over several remotes, with and without a preceding
-   link (implicit link), is checked on the real WriteTaskState and MapLane by correspondence + oracle
-   (partial). *)
+   The lane side of a map sync (per-remote sync queues interleaved with events, Model/MapLane.v) is
+   Proofs/MapLaneSyncProofs.v: the replica of a syncing remote, built from its own sync events and every
+   standard event written since its request, is consistent with the lane key by key and is the lane's map
+   (up to what is still queued) when it is told synced.  The same over the real MapLane and WriteTaskState,
+   with and without a preceding link (implicit link), is checked by correspondence + oracle. *)
 From SwimV Require Import Model.Uplinks Proofs.UplinksProofs Model.ValuePipeline Proofs.ValuePipelineProofs.
+From SwimV Require Import Model.MapLane Proofs.MapQueueProofs Proofs.MapLaneProofs Proofs.MapLaneSyncProofs.
 Open Scope N_scope.
 
 (* value lanes: the synced marker never overtakes the value waiting for that remote - both leave in one
@@ -60,3 +62,32 @@ Theorem C03_value_tail_converges : forall init ops1 ops2 r,
   forall x, aget r (p_rems p2) = Some x -> v_home (r_up x) = true ->
   last_opt (events_of (r_sent x)) = Some (vl_content (p_lane p2)).
 Proof. exact linked_remote_converges. Qed.
+
+(* ---- the lane side of a map sync (Model/MapLane.v: the event queue and the per-remote sync queues) ---- *)
+
+(* every sync id used once; commands (update / remove / clear / drop / take), other remotes' sync requests and
+   writes in any order: once the remote has been told synced, its replica - built from the sync events addressed
+   to it and from every standard event written since its request - followed by what the lane still has queued is
+   the lane's map, key by key; with nothing queued it is the lane's map *)
+Theorem C03_map_sync_replica_converges : forall id ops, NoDup (sync_ids ops) -> 2 * len ops + 2 < W ->
+  let '(l, rep0, st, rep) := strack id lane0 [] SNone [] ops in
+  st = SSynced ->
+  (forall d, effs d (events (evq l)) (lookup d rep) = lookup d (l_map l)) /\
+  (events (evq l) = [] -> forall d, lookup d rep = lookup d (l_map l)).
+Proof. exact sync_replica_converges. Qed.
+
+(* and while it is still syncing: every key it has been told about agrees with the lane (up to what is queued), the
+   keys still to be sent are unknown to it - concurrent syncs and changes do not disturb it *)
+Theorem C03_map_syncing_replica_is_consistent : forall id ops, NoDup (sync_ids ops) -> 2 * len ops + 2 < W ->
+  let '(l, rep0, st, rep) := strack id lane0 [] SNone [] ops in
+  st = SSyncing -> exists K, pend id (syncs_of l) = Some K /\
+    forall d, (inK d K = true /\ lookup d rep = None) \/ effs d (events (evq l)) (lookup d rep) = lookup d (l_map l).
+Proof. exact syncing_replica_is_consistent. Qed.
+
+(* a sync interleaved with changes reaches synced with the lane's map *)
+Theorem C03_map_sync_witness :
+  let ops := [LUpdate (1, 0) 5; LUpdate (2, 0) 6; LSync 9; LWrite; LWrite; LUpdate (3, 0) 7; LRemove (1, 0);
+              LWrite; LWrite; LWrite; LWrite; LWrite; LWrite; LWrite; LWrite] in
+  let '(l, rep0, st, rep) := strack 9 lane0 [] SNone [] ops in
+  st = SSynced /\ events (evq l) = [] /\ lookup 1 rep = None /\ lookup 2 rep = Some 6 /\ lookup 3 rep = Some 7.
+Proof. exact sync_example. Qed.
